@@ -413,6 +413,11 @@ let fam_ops : 'p. 'p fam -> profile -> string -> ts -> string = fun f prof op t 
        let (pr, pt, pb, pu) = poll_fields f d (f.poll1 d TEof) in
        Printf.sprintf "enc=%s;len=%s;block=%s;async=%s;aused=%s;poll=%s;ptotal=%s;pbody=%s;pused=%s"
          es ls (sbres f.show (f.dec_block d)) a au pr pt pb pu)
+  | "hdrdec" ->
+    (* Header::decode is block_on(Header::decode_async) over the slice: one model function *)
+    let d = hex t in
+    let h = sres shdr (f.hdr_dec d) in
+    Printf.sprintf "block=%s;async=%s" h h
   | "dec" ->
     let d = hex t in
     let h = sres shdr (f.hdr_dec d) in
@@ -591,8 +596,14 @@ let run_case (prof : profile) (line : string) : string =
     if not (Utf8.utf8_valid a && Utf8.utf8_valid b) then "invalid" else
       (match Topic.filter_try prof a, Topic.filter_try prof b with
        | Ok fa, Ok fb ->
-         Printf.sprintf "eq=%s;cmp=%s;hasheq=1" (sb (Topic.filter_eq fa fb))
-           (match Topic.filter_cmp fa fb with Datatypes.Lt -> "lt" | Datatypes.Eq -> "eq" | Datatypes.Gt -> "gt")
+         let oh = function Ok None -> "-" | Ok (Some b) -> hx b | Err _ -> "ERR" | Panic _ -> "PANIC" in
+         let c = Topic.filter_cmp fa fb in
+         let cs = (match c with Datatypes.Lt -> "lt" | Datatypes.Eq -> "eq" | Datatypes.Gt -> "gt") in
+         let e = Topic.filter_eq fa fb in
+         (* != , partial_cmp and < <= > >= are by definition those of eq / cmp; clone_from yields the source *)
+         Printf.sprintf "eq=%s;cmp=%s;hasheq=1;ne=%s;pcmp=%s;rel=%s%s%s%s;cf=11%s,%s,%s" (sb e) cs (sb (not e)) cs
+           (sb (c = Datatypes.Lt)) (sb (c <> Datatypes.Gt)) (sb (c = Datatypes.Gt)) (sb (c <> Datatypes.Lt))
+           (sb (Topic.filter_is_shared fb)) (oh (Topic.shared_group_name fb)) (oh (Topic.shared_filter fb))
        | _ -> "invalid")
   | "spec_tn" -> let s = hex t in if not (Utf8.utf8_valid s) then "notutf8" else sb (SpecTopic.Spec.topic_name_ok s)
   | "spec_tf" -> let s = hex t in if not (Utf8.utf8_valid s) then "notutf8" else
